@@ -79,8 +79,8 @@ type Captured struct {
 	Stdout, Stderr, Log string
 }
 
-func (c Captured) Empty() bool  { return c.Stdout == "" && c.Stderr == "" && c.Log == "" }
-func (c Captured) All() string  { return c.Stdout + c.Stderr + c.Log }
+func (c Captured) Empty() bool { return c.Stdout == "" && c.Stderr == "" && c.Log == "" }
+func (c Captured) All() string { return c.Stdout + c.Stderr + c.Log }
 func (c Captured) String() string {
 	if c.Empty() {
 		return ""
